@@ -532,6 +532,9 @@ func (pv *Prov) Atom(v ssa.Value, env *Env) string {
 				as = append(as, pv.Atom(f, env))
 			}
 			if len(as) == 0 {
+				if al.Comment != "" && allocAddressTaken(al) {
+					return "$" + al.Comment + "." + name // filled in through its address (e.g. by a decoder)
+				}
 				return "zero"
 			}
 			return joinAtoms(as)
@@ -682,4 +685,18 @@ func (pv *Prov) addrAtom(fa *ssa.FieldAddr, env *Env) string {
 		return pv.addrAtom(inner, env) + "." + name
 	}
 	return withSuffix(pv.Atom(fa.X, env), "."+name)
+}
+
+// allocAddressTaken: the local's address is passed to a call (it may be filled in by the callee).
+func allocAddressTaken(al *ssa.Alloc) bool {
+	for _, r := range *al.Referrers() {
+		switch x := r.(type) {
+		case *ssa.Call:
+			return true
+		case *ssa.MakeInterface:
+			_ = x
+			return true
+		}
+	}
+	return false
 }
